@@ -88,7 +88,82 @@ Definition asOp (s : sx) : option op :=
       match asListOf asName l, asName n with Some a, Some b => Some (SetNameList a b) | _, _ => None end
   | L [I 30%Z; t; n] =>
       match asLocT t, asName n with Some a, Some b => Some (SetNameLoc a b) | _, _ => None end
+  | L [I 31%Z; es] => option_map DelSamples (asListOf asZ es)
+  | L [I 32%Z; u; tab; us] =>
+      match asZ u, asListOf asVal tab, asB us with Some a, Some b, Some c => Some (SetColumnUID a b c) | _, _, _ => None end
+  | L [I 33%Z; c; tab; us] =>
+      match asZ c, asListOf asVal tab, asB us with Some a, Some b, Some c' => Some (SetColumnCol a b c') | _, _, _ => None end
+  | L [I 34%Z; tab; p; t; k; us] =>
+      match asListOf asVal tab, asName p, asLoc t, asZ k, asB us with
+      | Some a, Some b, Some c, Some d, Some e => Some (SetColumnName a b c d e) | _, _, _, _, _ => None end
+  | L [I 35%Z; e; c; v] =>
+      match asZ e, asZ c, asVal v with Some a, Some b, Some c' => Some (SetValueCol a b c') | _, _, _ => None end
+  | L [I 36%Z; t; e; k; v] =>
+      match asLocT t, asZ e, asNat k, asVal v with
+      | Some a, Some b, Some c, Some d => Some (SetFromLoc a b c d) | _, _, _, _ => None end
+  | L [I 37%Z; tabs; radix; t; k; us] =>
+      match asListOf (asListOf asVal) tabs, asName radix, asLoc t, asZ k, asB us with
+      | Some a, Some b, Some c, Some d, Some e =>
+          match a with [] => None | _ => Some (AddColsVVD a b c d e) end
+      | _, _, _, _, _ => None end
+  | L [I 38%Z; tab; nm; cmb] =>
+      match asListOf asVal tab, asName nm, asZ cmb with Some a, Some b, Some c => Some (AddSelC a b c) | _, _, _ => None end
+  | L [I 39%Z; ranks; nm; cmb] =>
+      match asListOf asNat ranks, asName nm, asZ cmb with Some a, Some b, Some c => Some (AddSelRanks a b c) | _, _, _ => None end
+  | L [I 40%Z; tv; hl; lo; hi; nm; cmb] =>
+      match asName tv, asB hl, asVal lo, asVal hi, asName nm, asZ cmb with
+      | Some a, Some b, Some c, Some d, Some e, Some f => Some (AddSelLimit a b c d e f) | _, _, _, _, _, _ => None end
   | _ => None
+  end.
+
+(* ---- creators *)
+Definition asLocStr (s : sx) : option locstr :=
+  match s with L [t; n] => match asLoc t, asZ n with Some a, Some b => Some (a, b) | _, _ => None end | _ => None end.
+Definition asLim (s : sx) : option (nat * nat) :=
+  match s with L [a; b] => match asNat a, asNat b with Some a', Some b' => Some (a', b') | _, _ => None end | _ => None end.
+Definition pos_list (l : list nat) : bool := forallb (fun n => 0 <? n) l.
+(* sizes the library does not check itself (it would read out of bounds or divide by zero) *)
+Definition sizes_ok (ne : nat) (tab : list val) (names : list name) (locs : list locstr) : bool :=
+  match tab with
+  | [] => true
+  | _ => (0 <? ne) &&
+         let ntab := Nat.div (length tab) ne in
+         (match names with [] => true | _ => Nat.eqb (length names) ntab end)
+         && (match locs with [] => true | _ => Nat.eqb (length locs) ntab end)
+  end.
+Definition asCmd (s : sx) : option cmd :=
+  match s with
+  | L [I 50%Z; ne; bc; tab; names; locs; rank] =>
+      match asNat ne, asB bc, asListOf asVal tab, asListOf asName names, asListOf asLocStr locs, asB rank with
+      | Some a, Some b, Some c, Some d, Some e, Some f =>
+          if sizes_ok a c d e then Some (NewSamples a b c d e f) else None
+      | _, _, _, _, _, _ => None end
+  | L [I 51%Z; ne; ndim; rank] =>
+      match asNat ne, asNat ndim, asB rank with
+      | Some a, Some b, Some c => if (0 <? a) && (0 <? b) then Some (NewBox a b c) else None
+      | _, _, _ => None end
+  | L [I 52%Z; ndat; ndim; nvar; nfex; code; varm; sel; het; rank] =>
+      match asNat ndat, asNat ndim, asNat nvar, asNat nfex, asB code, asB varm, asB sel, asListOf asB het, asB rank with
+      | Some a, Some b, Some c, Some d, Some e, Some f, Some g, Some h, Some i =>
+          if (0 <? a) && (0 <? b) && (0 <? c) then Some (NewFill a b c d e f g h i) else None
+      | _, _, _, _, _, _, _, _, _ => None end
+  | L [I 53%Z; nx; dx; x0; bc; tab; names; locs; rank; coords] =>
+      match asListOf asNat nx, asListOf asZ dx, asListOf asZ x0, asB bc, asListOf asVal tab, asListOf asName names,
+            asListOf asLocStr locs, asB rank, asB coords with
+      | Some a, Some b, Some c, Some d, Some e, Some f, Some g, Some h, Some i =>
+          if pos_list a && (0 <? length a) && Nat.eqb (length b) (length a) && Nat.eqb (length c) (length a)
+             && forallb (fun z => (0 <? z)%Z) b && sizes_ok (grid_nech a) e f g
+          then Some (NewGrid a b c d e f g h i) else None
+      | _, _, _, _, _, _, _, _, _ => None end
+  | L [I 54%Z; nx; dx; x0; lims; coords] =>
+      match asListOf asNat nx, asListOf asZ dx, asListOf asZ x0, asListOf asLim lims, asB coords with
+      | Some a, Some b, Some c, Some d, Some e =>
+          if pos_list a && (0 <? length a) && Nat.eqb (length b) (length a) && Nat.eqb (length c) (length a)
+             && Nat.eqb (length d) (length a)
+             && forallb (fun p => (fst (fst p) <? snd (fst p)) && (snd (fst p) <=? snd p)) (combine d a)
+          then Some (SubGrid a b c d e) else None
+      | _, _, _, _, _ => None end
+  | _ => option_map Do (asOp s)
   end.
 
 (* ---- observations <-> sx *)
@@ -109,48 +184,53 @@ Definition ofObs (o : obs) : sx :=
       ofList (ofList ofVal) (o_cols_name o);
       ofList (ofList ofVal) (o_cols_loc o);
       ofList ofZ (o_name2col o);
-      ofList ofZ (o_name2uid o) ].
+      ofList ofZ (o_name2uid o);
+      ofList (ofList ofVal) (o_cols_sel o);
+      ofList (ofList ofVal) (o_cols_selc o) ].
 Definition asPair (s : sx) : option (Z * Z) :=
   match s with L [I a; I b] => Some (a, b) | _ => None end.
 Definition asObs (s : sx) : option obs :=
   match s with
-  | L [a; b; c; d; e; f; g; h; i; j; k; l; m; n; o; p] =>
+  | L [a; b; c; d; e; f; g; h; i; j; k; l; m; n; o; p; q; r] =>
       match asNat a, asNat b, asNat c, asListOf asB d, asListOf asName e, asListOf asZ f, asListOf asZ g,
             asListOf asZ h with
       | Some a', Some b', Some c', Some d', Some e', Some f', Some g', Some h' =>
           match asListOf asPair i, asListOf (asListOf asZ) j, asListOf (asListOf asVal) k,
                 asListOf (asListOf asVal) l, asListOf (asListOf asVal) m, asListOf (asListOf asVal) n,
-                asListOf asZ o, asListOf asZ p with
-          | Some i', Some j', Some k', Some l', Some m', Some n', Some o', Some p' =>
-              Some (mkObs a' b' c' d' e' f' g' h' i' j' k' l' m' n' o' p')
-          | _, _, _, _, _, _, _, _ => None
+                asListOf asZ o, asListOf asZ p, asListOf (asListOf asVal) q, asListOf (asListOf asVal) r with
+          | Some i', Some j', Some k', Some l', Some m', Some n', Some o', Some p', Some q', Some r' =>
+              Some (mkObs a' b' c' d' e' f' g' h' i' j' k' l' m' n' o' p' q' r')
+          | _, _, _, _, _, _, _, _, _, _ => None
           end
       | _, _, _, _, _, _, _, _ => None
       end
   | _ => None
   end.
 
-Definition spec_bits (o : op) (before ob : obs) : Z :=
-  (check_obs ob + post_bits o ob + frame_bits o before ob)%Z.
+(* spec on observations: invariant clauses + selection clause, and for an editor its role post-condition and the
+   frame condition w.r.t. the observation before the call (a creator returns a new Db: no frame) *)
+Definition spec_bits (c : cmd) (before ob : obs) : Z :=
+  (check_obs ob + bit (chk_selcols ob) 1024
+   + match c with Do o => post_bits o ob + frame_bits o before ob | _ => 0 end)%Z.
 
-Fixpoint run_hist (s : state) (ops : list op) (accO accF : list sx) : sx :=
-  match ops with
+Fixpoint run_hist (g : gstate) (cs : list cmd) (accO accF : list sx) : sx :=
+  match cs with
   | [] => L [L (rev accO); L (rev accF)]
-  | o :: r =>
-      let s' := step s o in
-      let ob := observe s' in
-      run_hist s' r (ofObs ob :: accO) (L [I (spec_bits o (observe s) ob); I (why_not s o)] :: accF)
+  | c :: r =>
+      let g' := exec g c in
+      let ob := observe (snd g') in
+      run_hist g' r (ofObs ob :: accO) (L [I (spec_bits c (observe (snd g)) ob); I (why_not_cmd g c)] :: accF)
   end.
 
 Definition run (c : sx) : sx :=
   match c with
-  | L [I 0%Z; ops] =>
-      match asListOf asOp ops with
-      | Some l => run_hist init l [] []
+  | L [I 0%Z; cs] =>
+      match asListOf asCmd cs with
+      | Some l => run_hist (false, init) l [] []
       | None => sx_error 1
       end
   | L [I 1%Z; o; b; ob] =>
-      match asOp o, asObs b, asObs ob with
+      match asCmd o, asObs b, asObs ob with
       | Some o', Some b', Some ob' => L [I (spec_bits o' b' ob')]
       | _, _, _ => sx_error 2
       end
